@@ -72,3 +72,55 @@ package cipher
 //@   loop 1 invariant forall j :: 0 <= j && j < len(src) ==> src[j] == SA[offof(src) + j]
 //@   loop 1 invariant onlychanged(D0[:len(S0)])
 //@   loop 1 decreases len(src)
+
+// ---- CCM (RFC 3610 / SP 800-38C) over an abstract 128-bit block cipher (C04)
+// counter block A_0: flags = L - 1, then the nonce, then a zero counter
+//@ func (*ccm).deriveCounter property C04
+//@   requires c != nil && 7 <= c.nonceSize && c.nonceSize <= 13 && len(nonce) == c.nonceSize && !sameobj(nonce, counter)
+//@   ensures counter[0] == 14 - c.nonceSize && forall j :: 0 <= j && j < c.nonceSize ==> counter[1 + j] == old(nonce[j])
+//@   ensures forall j :: 1 + c.nonceSize <= j && j < 16 ==> counter[j] == old(counter[j])
+//@   modifies *counter
+
+// CBC-MAC absorption of data, zero-padded to whole blocks, into out (assumed frame: the functional
+// chaining is the same construction proved for cbcmac under C19)
+//@ func (*ccm).cmac trusted
+//@   requires len(out) == 16
+//@   modifies out[0..16]
+
+//@ pred ccmok(c) := c != nil && c.cipher != nil && BS(id(c.cipher)) == 16 && 7 <= c.nonceSize && c.nonceSize <= 13 && 4 <= c.tagSize && c.tagSize <= 16 && c.tagSize % 2 == 0
+
+//@ func (*ccm).MaxLength trusted
+//@   ensures 0 < result && result <= 9223372036854775807 - c.tagSize
+//@   modifies nothing
+
+// Seal: the output is dst || (P xor S_1..) || T and only the appended region is written. The tag is
+// computed over the plaintext as it was given - also when dst reuses the plaintext's storage
+// (dst = plaintext[:0]), which crypto/cipher.AEAD allows.
+//@ func (*ccm).Seal property C04
+//@   requires ccmok(c) && len(dst) + len(plaintext) + 16 < 4611686018427387904
+//@   maypanic
+//@   let PA := arr(plaintext)
+//@   let PO := offof(plaintext)
+//@   let PL := len(plaintext)
+//@   let DA := arr(dst)
+//@   let DO := offof(dst)
+//@   let DL := len(dst)
+//@   bind after call NewCTR#1: ST := id(result)
+//@   bind after call auth#1: TA := arr(result)
+//@   bind after call auth#1: TO := offof(result)
+//@   assert before call NewCTR#1: forall j :: 0 <= j && j < 15 ==> arg1[j] == ite(j == 0, 14 - c.nonceSize, ite(j <= c.nonceSize, nonce[j - 1], 0))
+//@   assert before call NewCTR#1: arg1[15] == 1 && len(arg1) == 16
+//@   assert before call auth#1: len(arg2) == PL && forall j :: 0 <= j && j < PL ==> arg2[j] == PA[PO + j]
+//@   ensures len(result) == DL + PL + c.tagSize
+//@   ensures forall j :: 0 <= j && j < DL ==> result[j] == DA[DO + j]
+//@   ensures forall j :: 0 <= j && j < PL ==> result[DL + j] == bxor8(PA[PO + j], CTRKS(SKEY(ST), SCTR(ST), j))
+//@   ensures forall j :: 0 <= j && j < c.tagSize ==> result[DL + PL + j] == TA[TO + j]
+//@   modifies dst[len(dst)..cap(dst)], heap G_spos
+
+// the authentication value (frame only here; B_0 and the associated-data length encoding are
+// asserted in the contract of auth itself)
+//@ func (*ccm).auth trusted
+//@   requires ccmok(c) && len(nonce) == c.nonceSize && tagMask != nil
+//@   ensures len(result) == c.tagSize
+//@   fresh result
+//@   modifies nothing
